@@ -487,6 +487,8 @@ REJECT = [
     ("covariance_negative_definite", [[0, 0], [1, 1]], [I2, [[-1.0, 0.0], [0.0, -1.0]]], [0.5, 0.5]),
     ("covariance_slightly_indefinite", [[0, 0], [1, 1]], [I2, [[1.0, 0.0], [0.0, -1e-3]]], [0.5, 0.5]),
     ("covariance_slightly_indefinite_large_units", [[0, 0], [1, 1]], [I2, [[1e6, 0.0], [0.0, -1.0]]], [0.5, 0.5]),
+    ("covariance_not_psd_next_to_a_component_in_large_units", [[0, 0], [1, 1]], [[[4e8, 0.0], [0.0, 9e8]], [[1.0, 1.5], [1.5, 1.0]]], [0.5, 0.5]),
+    ("covariance_negative_definite_before_a_component_in_large_units", [[0, 0], [1, 1], [2, 2]], [[[-1.0, 0.0], [0.0, -1.0]], I2, [[1e12, 0.0], [0.0, 1e12]]], [0.5, 0.25, 0.25]),
     ("zero_covariance", [[0, 0], [1, 1]], [I2, [[0.0, 0.0], [0.0, 0.0]]], [0.5, 0.5]),
     ("covariance_not_square", [[0, 0], [1, 1]], [[[1.0, 0.0, 0.0], [0.0, 1.0, 0.0]]] * 2, [0.5, 0.5]),
     ("negative_variance_1d", [[0.0], [1.0]], [[1.0], [-1.0]], [0.5, 0.5]),
